@@ -32,7 +32,7 @@ def run_one(name, p, extra_args):
 
 def evaluate(d):
     name = os.path.basename(d)
-    if name in DONE:
+    if name in DONE and not only:
         return DONE[name]
     meta = json.load(open(os.path.join(d, "meta.json")))
     prop = meta["breaks_property"]
@@ -70,5 +70,6 @@ with ThreadPoolExecutor(PAR) as ex:
         res.append(entry)
         tag = "obsolete" if entry.get("obsolete") else ("DETECTED" if entry["detected"] else ("DOES-NOT-APPLY" if any(not r["applies"] for r in entry["runs"]) else "missed"))
         print(entry["seed"], tag, [r["by"][:2] for r in entry["runs"] if r["detected"]], flush=True)
-        json.dump(sorted(res, key=lambda e: e["seed"]), open(os.path.join(V, "seeded", "RESULTS.json"), "w"), indent=1)
+        merged = {**{k: v for k, v in DONE.items() if os.path.isdir(os.path.join(V, "seeded", k))}, **{e["seed"]: e for e in res}}
+        json.dump(sorted(merged.values(), key=lambda e: e["seed"]), open(os.path.join(V, "seeded", "RESULTS.json"), "w"), indent=1)
 
